@@ -103,6 +103,12 @@ func Param(name string) int {
 	return int(v)
 }
 
+// HasParam reports whether the entry instance defines the parameter.
+func HasParam(name string) bool {
+	_, ok := cur.Params[name]
+	return ok
+}
+
 // Concrete forces a case split over the feasible values of v (identity natively).
 func Concrete(v uint64) uint64 { return v }
 
